@@ -165,6 +165,8 @@ func main() {
 		err = storeMain(*prop, *tier, *seed, *out, *replay)
 	case "values":
 		err = valuesMain(*prop, *tier, *seed, *out, *replay)
+	case "bind":
+		err = bindMain(*prop, *tier, *seed, *out, *replay)
 	default:
 		err = fmt.Errorf("unknown family %q", family)
 	}
